@@ -68,6 +68,8 @@ def rules():
     r.add("R6.char_type_decl", r"\bchar_type\b", "char")
     r.add("R4.sib", r"(?<![\w.>])(process_octal|process_hex|process_unicode|finish)\(\)", r"Char_Parser_\1(self)")
     r.add("R8.auto.ch_cond", r"\bconst auto ch = \(u_size == match_size\) \? ", "const uint32_t ch = (u_size == match_size) ? ")
+    # `ch` is a uint32_t in every form of its initialiser (it is always a cast to uint32_t or a conditional of two)
+    r.add("R8.auto.ch_any", r"\bconst auto ch = (?=\(uint32_t\)\()", "const uint32_t ch = ")
     r.add("R6.uint32_ctor", r"\buint32_t\(0\)", "((uint32_t)0)")
     r.add("R1.field", r"(?<![\w.>])(" + "|".join(FIELDS) + r")\b", r"self->\1")
     return r
